@@ -270,6 +270,75 @@ def unique_names(ctx):
     ctx.extra['unique_names_lists'] = {'lists': len(seen), 'differences': bad}
 
 
+def _flatten_mmap(d, depth, pre=()):
+    """nested dict -> ({path: leaf}, {prefix: [keys in dict order]})"""
+    leaves, order = {}, {pre: list(d)}
+    for k, v in d.items():
+        if depth == 1:
+            leaves[pre + (k,)] = v
+        else:
+            l2, o2 = _flatten_mmap(v, depth - 1, pre + (k,))
+            leaves.update(l2)
+            order.update(o2)
+    return leaves, order
+
+
+def mmap_case(c):
+    """one case of specs/sql/RecordsMMap.tla on the real SqlMethod.records_mmap; -> problem or None"""
+    import collections
+    from ak.mtd_sql import SqlMethod
+    Rec = collections.namedtuple('Rec', ['a', 'b', 'n'])
+    recs = [Rec(r['a'], r['b'], i + 1) for i, r in enumerate(c['recs'])]
+    keys = list(c['keys'])
+    what = 'records_mmap(%s, %s, unique=%s)' % ([(r.a, r.b) for r in recs], keys, c['unique'])
+    try:
+        got = SqlMethod.records_mmap(iter(recs) if len(recs) % 2 else recs, *keys, unique=c['unique'])
+    except AssertionError:
+        return None if c['failed'] else '%s raised AssertionError, the spec finds no duplicate key path' % what
+    except Exception as e:
+        return '%s raised %s: %s' % (what, type(e).__name__, str(e)[:80])
+    if c['failed']:
+        return '%s returned %r, the spec says two records share a key path (AssertionError)' % (what, got)
+    leaves, order = _flatten_mmap(got, len(keys)) if recs else ({}, {(): []})
+    want_leaves = {tuple(p): [recs[i - 1] for i in idx] for p, idx in c['leaves']}
+    if c['unique']:
+        want_leaves = {p: v[0] for p, v in want_leaves.items()}
+    if leaves != want_leaves:
+        return '%s gives the leaves %r, the spec %r' % (what, leaves, want_leaves)
+    for p, v in leaves.items():
+        for x, y in zip(v if isinstance(v, list) else [v], want_leaves[p] if isinstance(want_leaves[p], list) else [want_leaves[p]]):
+            if x is not y:
+                return '%s: the leaf at %s does not hold the record objects themselves' % (what, p)
+    want_order = {tuple(pre): list(vals) for pre, vals in c['order']} or {(): []}
+    if order != want_order:
+        return '%s: keys in the order %r, first occurrences give %r' % (what, order, want_order)
+    return None
+
+
+def records_mmap(ctx):
+    """growth item (DRIFT only): SqlMethod.records_mmap against specs/sql/RecordsMMap.tla"""
+    cfg = ('SPECIFICATION Spec\nCHECK_DEADLOCK FALSE\nCONSTANTS\n  MaxRecs = %d\n  Vals = {1, 2}\n  Emit = TRUE\n'
+           'INVARIANT Refines\nINVARIANT FailsIffDuplicate\nINVARIANT NothingLost\n' % (4 if ctx.quick else 5))
+    r = ctx.tlc('sql/RecordsMMap.tla', cfg, workers=8, timeout=1800)
+    cases = [c for c in r.printed if isinstance(c, dict)]
+    if len(cases) < 1000:
+        raise Machinery('RecordsMMap emitted %d cases' % len(cases))
+    bad = 0
+    for c in cases:
+        if not isinstance(c['recs'], list):
+            c['recs'] = []
+        prob = mmap_case(c)
+        if prob:
+            bad += 1
+            if bad <= 3:
+                ctx.note_drift('RecordsMMap: ' + prob)
+    wrong = dict(next(c for c in cases if c['leaves'] and not c['failed'] and not c['unique']))
+    wrong['leaves'] = [[p, list(idx) + [1]] for p, idx in wrong['leaves']]
+    ctx.selftest(mmap_case(wrong) is not None, 'RecordsMMap replay accepted a corrupted mapping')
+    ctx.extra['records_mmap'] = {'cases': len(cases), 'differences': bad,
+                                 'rejected_for_duplicates': sum(1 for c in cases if c['failed'])}
+
+
 def run(ctx):
     ctx.assumptions += ['sqlite3 columns without type affinity; value pool NULL, 0, 1, "", "a", "o\'q", "%"; LIKE without '
                         'ESCAPE; the %s placeholder style is exercised through a sqlite connection whose type name contains mysql.connector and whose cursor maps %s to ?; sets only as 0/1-element containers (their iteration order is unspecified)']
@@ -318,6 +387,7 @@ def run(ctx):
     bad['rows'] = bad['rows'] + [1]
     ctx.selftest(run_case((bad, table, 0))[0] is not None, 'replay accepted a corrupted row set')
     unique_names(ctx)
+    records_mmap(ctx)
     ctx.traces = len(jobs)
     ctx.exhaustive = False
     ctx.extra['single_condition_cases_exhaustive'] = n1
